@@ -3134,7 +3134,7 @@ class FreezeCurrentStateResponse(
         )
 
     def matches(self, request: UDSRequest) -> bool:
-        return super().matches(request) and isinstance(request, FreezeCurrentStateResponse)
+        return super().matches(request) and isinstance(request, FreezeCurrentStateRequest)
 
 
 class FreezeCurrentStateRequest(
